@@ -417,9 +417,25 @@ impl Model for HistModel {
         }
     }
     fn next_state(&self, st: &St, a: u16) -> Option<St> {
-        let (next, issues) = self.step(st, a);
-        self.record(&next.hist, issues);
-        Some(next)
+        match std::panic::catch_unwind(std::panic::AssertUnwindSafe(|| self.step(st, a))) {
+            Ok((next, issues)) => {
+                self.record(&next.hist, issues);
+                Some(next)
+            }
+            Err(p) => {
+                let msg = p.downcast_ref::<String>().cloned().or_else(|| p.downcast_ref::<&str>().map(|s| s.to_string())).unwrap_or_else(|| "panic".into());
+                let loc = crate::engine::LAST_PANIC_LOC.with(|l| l.borrow().clone());
+                if loc.starts_with("src/") || loc.is_empty() {
+                    eprintln!("MACHINERY: E-HIST transition panicked inside the harness at {}: {}", loc, msg);
+                    std::process::exit(2);
+                }
+                let mut hist = st.hist.clone();
+                hist.push(a);
+                let short: String = msg.chars().map(|c| if c.is_ascii_digit() { '#' } else { c }).take(80).collect();
+                self.record(&hist, vec![issue(format!("library-panicked/{}", short.replace(' ', "-")), format!("action {} panicked at {}: {}", self.actions[a as usize].name, loc, msg))]);
+                None
+            }
+        }
     }
     fn properties(&self) -> Vec<Property<Self>> {
         // one property that never yields a discovery keeps the search running to its fixpoint; per-state probes
